@@ -100,7 +100,7 @@ class mpq(object):
             a, b = s._mpq_
             c, d = t._mpq_
             return op(a*d, b*c)
-        return NotImplementedError
+        return NotImplemented
 
     def __lt__(s, t): return s._cmp(t, operator.lt)
     def __le__(s, t): return s._cmp(t, operator.le)
